@@ -87,6 +87,20 @@ Definition get_historical_summary (cache : list bytes) (oracle : option (res (li
        | Some (Ok l) => if i <? nlen l then idxN l i else Err E_SUMMARY_RANGE
        end.
 
+(* The same call with the provider's state made explicit: the returned value and the cache AFTER the call.  The cache is
+   replaced by the oracle's list exactly when that list contains the requested index (`h.cache = historicalSummaries`);
+   in every other case it is left as it was. *)
+Definition get_historical_summary_st (cache : list bytes) (oracle : option (res (list bytes))) (slot : N)
+  : res bytes * list bytes :=
+  let i := summary_index slot in
+  if i <? nlen cache then (idxN cache i, cache)
+  else match oracle with
+       | None => (Err E_ORACLE_NIL, cache)
+       | Some (Err _) => (Err E_ORACLE, cache)
+       | Some Panic => (Panic, cache)
+       | Some (Ok l) => if i <? nlen l then (idxN l i, l) else (Err E_SUMMARY_RANGE, cache)
+       end.
+
 Section HeaderProof.
   Variable H : bytes -> bytes -> bytes.
   (* false: the code as it was found (HistoricalRoots[slot/8192] unguarded);  true: with fixes/C03-historical-roots-bounds.diff *)
@@ -143,10 +157,59 @@ Section HeaderProof.
       bind (decode_post 13 11 proof) (validate_capella_to_deneb summaries oracle hash)
     else
       bind (decode_post 13 12 proof) (validate_post_deneb summaries oracle hash).
+
+  (* ---- one HeaderValidator instance over a HISTORY of validations: the summaries cache is state ---- *)
+
+  (* validateCapellaToDenebHeader / validatePostDenebHeader with the cache threaded through: the provider is only consulted
+     after the execution stage passed *)
+  Definition validate_summaries_st (exec_gindex : N) (cache : list bytes) (oracle : option (res (list bytes)))
+                                   (hash : bytes) (p : post_proof) : res unit * list bytes :=
+    match lift_verdict (verify_exec exec_gindex hash (pp_exec p) (pp_root p)) E_EXEC with
+    | Ok _ =>
+        let (r, cache') := get_historical_summary_st cache oracle (pp_slot p) in
+        (bind r (fun summary_root =>
+           let block_root_index := pp_slot p mod K_epochSize in
+           let gen_index := K_epochSize + block_root_index in
+           lift_verdict (verify_branch H (pp_root p) (pp_beacon p) 13 gen_index summary_root) E_MERKLE), cache')
+    | Err e => (Err e, cache)
+    | Panic => (Panic, cache)
+    end.
+
+  (* one event = what the oracle would answer during this call, and the call's arguments *)
+  Definition event : Type := (option (res (list bytes)) * N * bytes * bytes)%type.
+
+  (* ValidateHeaderAndProof on a validator whose provider currently caches `cache`: verdict and cache afterwards *)
+  Definition validate_step (epochs roots : list bytes) (cache : list bytes) (ev : event) : res unit * list bytes :=
+    let '(oracle, number, hash, proof) := ev in
+    if number <? K_MergeBlockNumber then (validate_pre_merge epochs number hash proof, cache)
+    else if number <? K_ShanghaiBlockNumber then
+      (bind (decode_post 14 11 proof) (validate_merge_to_capella roots hash), cache)
+    else if number <? K_CancunNumber then
+      match decode_post 13 11 proof with
+      | Ok p => validate_summaries_st 3228 cache oracle hash p
+      | Err e => (Err e, cache)
+      | Panic => (Panic, cache)
+      end
+    else
+      match decode_post 13 12 proof with
+      | Ok p => validate_summaries_st 6444 cache oracle hash p
+      | Err e => (Err e, cache)
+      | Panic => (Panic, cache)
+      end.
+
+  (* the verdict of every call of a history and the cache after it *)
+  Fixpoint run_history (epochs roots : list bytes) (cache : list bytes) (evs : list event) : list (res unit * list bytes) :=
+    match evs with
+    | [] => []
+    | ev :: rest =>
+        let (v, cache') := validate_step epochs roots cache ev in
+        (v, cache') :: run_history epochs roots cache' rest
+    end.
 End HeaderProof.
 
 (* the instances that run: SHA-256 pair hash; as found / repaired *)
 Definition validate_sha (guard : bool) := validate_header_and_proof sha_pair guard.
+Definition run_history_sha (guard : bool) := run_history sha_pair guard.
 
 (* sparse accumulators for the driver: n entries, all `zero` except the listed (index, value) pairs *)
 Fixpoint sparse_lookup (l : list (N * bytes)) (i : N) (zero : bytes) : bytes :=
